@@ -436,13 +436,14 @@ LPV = z3.Function('logpdf.val', I, R)
 
 
 class Pdf(Contract):
-    """pdf = exp(logpdf): 0 where logpdf = -inf, exp(value) elsewhere"""
-    target = POST + 'pdf'
+    """pdf = exp(logpdf): 0 where logpdf = -inf, exp(value) elsewhere; likewise _unnormalized_likelihood = exp(_unnormalized_loglikelihood)"""
     prop = 'C10'
     fin = 3
 
-    def __init__(self, scalar):
+    def __init__(self, scalar, fn='pdf', callee='logpdf'):
         self.scalar = scalar
+        self.target = POST + fn
+        self.callee = callee
         self.label = 'scalar-answer' if scalar else 'array-answer'
 
     def env(self, vc):
@@ -459,7 +460,7 @@ class Pdf(Contract):
         def logpdf(self_, xq):
             s.calls.append(xq)
             return lp
-        s.self = make_object('BolfiPosteriorStub', methods=dict(logpdf=logpdf))
+        s.self = make_object('BolfiPosteriorStub', methods={self.callee: logpdf})
         return s, (s.self, x), {}
 
     def requires(self, s):
@@ -483,4 +484,61 @@ class Pdf(Contract):
         return dict(scalar=self.scalar)
 
 
-CONTRACTS = [WithinBounds()] + [UnnormLogLik(c) for c in CASES] + [LogPdf(True), LogPdf(False), Pdf(True), Pdf(False)]
+GL = z3.Function('grad_loglik', I, I, R)
+GPR_ = z3.Function('grad_logprior', I, I, R)
+
+
+class GradLogPdf(Contract):
+    """gradient_logpdf = gradient of the log-likelihood + gradient of the log prior, entry by entry, in the callees' answer shape"""
+    target = POST + 'gradient_logpdf'
+    prop = 'C10'
+    fin = 3
+
+    def __init__(self, point):
+        self.point = point
+        self.label = 'single-point answer (dim,)' if point else 'answer (n, dim)'
+
+    def setup(self, vc):
+        n, d = (z3.IntVal(1) if self.point else z3.Int('n')), z3.Int('dim')
+        vc.fin_bounds.extend([d] if self.point else [n, d])
+        x = fresh_q(vc, 'x', ())
+        s = NS(n=n, dm=d, x=x, calls=[])
+        if self.point:
+            a = SArr.from_fn(lambda c: GL(0, c), (d,), 'real')
+            b = SArr.from_fn(lambda c: GPR_(0, c), (d,), 'real')
+        else:
+            a = SArr.from_fn(lambda r, c: GL(r, c), (n, d), 'real')
+            b = SArr.from_fn(lambda r, c: GPR_(r, c), (n, d), 'real')
+
+        def gll(self_, xq):
+            s.calls.append(('ll', xq))
+            return a
+
+        def gprior(self_, xq, stepsize=None):
+            s.calls.append(('prior', xq))
+            return b
+        s.self = make_object('BolfiPosteriorStub', attrs=dict(prior=make_object('PriorStub', methods=dict(gradient_logpdf=gprior))),
+                             methods=dict(_gradient_unnormalized_loglikelihood=gll))
+        return s, (s.self, x), {}
+
+    def requires(self, s):
+        return [s.n >= 0, s.dm >= 1]
+
+    def ensures(self, s, result):
+        rank = 1 if self.point else 2
+        if not isinstance(result, SArr) or result.ndim != rank:
+            return [('the answer has the shape of the callees\' answers', z3.BoolVal(False))]
+        at = (lambda r, c: result.at(c)) if self.point else (lambda r, c: result.at(r, c))
+        shape_ok = result.shape[0] == s.dm if self.point else z3.And(result.shape[0] == s.n, result.shape[1] == s.dm)
+        return [('both terms are evaluated at the query x', z3.BoolVal(sorted(c[0] for c in s.calls) == ['ll', 'prior'] and all(c[1] is s.x for c in s.calls))),
+                ('answer shape', shape_ok),
+                ('gradient of the log posterior = gradient of the log-likelihood + gradient of the log prior',
+                 forall_range(0, s.n, lambda r: forall_range(0, s.dm, lambda c: at(r, c) == GL(r, c) + GPR_(r, c), 'c'), 'r'))]
+
+    def witness(self, vc, model, ob):
+        return dict(point=self.point)
+
+
+CONTRACTS = [WithinBounds()] + [UnnormLogLik(c) for c in CASES] + [LogPdf(True), LogPdf(False), Pdf(True), Pdf(False),
+                                                                       Pdf(True, '_unnormalized_likelihood', '_unnormalized_loglikelihood'), Pdf(False, '_unnormalized_likelihood', '_unnormalized_loglikelihood'),
+                                                                       GradLogPdf(True), GradLogPdf(False)]
